@@ -311,3 +311,78 @@ func VerifC07Trial() {
 }
 
 func verifSuccessfulSettles(w *verifPayWorld) int { return w.settled }
+
+// VerifC07Contract: withdrawals through the REAL contract proxy end to end -
+// contractPayment.GetAccountBalance / GetBalance / balance cache as the
+// balance store and contractPayment.OpSettle as the settle handler - over the
+// chain model (zz_verif_chain.go): the deposit may be timelocked, the
+// Ethereum node may be unreachable when the deposit is read, and the
+// settlement transaction may be rejected, each at the first attempt. A refused
+// or failed attempt pays nothing and changes neither the credit nor the
+// on-chain deposit; over all attempts the wallet is paid exactly deposit +
+// credit - fee, once, and the ledger's credit moves only by what was settled.
+func VerifC07Contract() {
+	db := newVerifStore()
+	wal := store.Account(verifapi.Wallet(0))
+	cp := verifNewContractPayment(db)
+	ch := verifTheChain
+	key := strings.ToLower(string(wal))
+	deposit, credit := int64(7000), int64(5000)
+	ch.deposit[key] = big.NewInt(deposit)
+	verifapi.SetNow(time.Unix(1600000000, 0))
+	db.AddAccountBalance(wal, big.NewInt(credit))
+	pay := &PaymentService{NonceStore: db, AccountStore: db, BalanceStore: cp, Settle: cp.OpSettle,
+		WithdrawFee: func(amount *big.Int) *big.Int { return amount.Sub(amount, big.NewInt(100)) }}
+	switch verifapi.Choose("minimum", 3) {
+	case 1:
+		pay.WithdrawMin = big.NewInt(4000) // met by the credit alone
+	case 2:
+		pay.WithdrawMin = big.NewInt(9000) // met only by deposit + credit
+	}
+	// what goes wrong at the first attempt
+	trouble := verifapi.Choose("trouble", 4)
+	switch trouble {
+	case 1:
+		ch.timelocked[key] = true
+	case 2:
+		ch.failReads = 1
+	case 3:
+		ch.failSettles = 1
+	}
+	w := &verifPayWorld{db: db, pay: pay}
+	storedCredit := func() int64 {
+		b, err := db.GetAccountBalance(wal)
+		if err != nil {
+			verifapi.Unreachable("c07.contract-read")
+		}
+		return b.Credit.Int64()
+	}
+	owed := deposit + credit
+	err1 := w.withdraw(wal, true)
+	verifapi.Reach("c07.contract.first")
+	if trouble != 0 {
+		verifapi.Assert(err1 != nil, "c07.contract.troubled-attempt-refused")
+	} else {
+		verifapi.Assert(err1 == nil, "c07.contract.clean-attempt-succeeds")
+	}
+	if err1 != nil {
+		verifapi.Assert(ch.paid.Sign() == 0 && len(ch.settled) == 0, "c07.contract.failed-attempt-pays-nothing")
+		verifapi.Assert(ch.deposit[key].Int64() == deposit, "c07.contract.failed-attempt-leaves-deposit")
+		verifapi.Assert(storedCredit() == credit, "c07.contract.failed-attempt-leaves-credit")
+		// the trouble passes; the wallet tries again
+		ch.timelocked[key] = false
+		cp.balanceCache.Reset(0) // (a cached deposit would be equally good: nothing was cached by a failed read)
+		err2 := w.withdraw(wal, true)
+		verifapi.Assert(err2 == nil, "c07.contract.retry-succeeds")
+	}
+	verifapi.Reach("c07.contract")
+	verifapi.Assert(ch.paid.Int64() == owed-100 && len(ch.settled) == 1, "c07.contract.pays-deposit-plus-credit-minus-fee-once")
+	verifapi.Assert(ch.deposit[key].Sign() == 0 && storedCredit() == 0, "c07.contract.nothing-left")
+	// a further attempt pays nothing more (below a minimum it is refused; without one it settles zero - minus the fee)
+	before := new(big.Int).Set(ch.paid)
+	err3 := w.withdraw(wal, true)
+	if pay.WithdrawMin != nil {
+		verifapi.Assert(err3 != nil && ch.paid.Cmp(before) == 0, "c07.contract.nothing-paid-twice")
+	}
+	verifapi.Assert(storedCredit() == 0, "c01.contract.credit-moves-only-by-what-was-settled")
+}
